@@ -427,6 +427,12 @@ type shareRun struct {
 	hung      int
 	sharedMax int
 	samples   []string
+	// direct oracle on the implementation (independent of the Coq model)
+	keep     []*ach.File // every object ever seen in the store
+	fails    []failure
+	cross    map[string]int // request kind -> times it changed what another stored object shows
+	crossEx  map[string]string
+	evals    int
 }
 
 func (o *shareRun) symIDs(s *libSrv, clients []string) []string {
@@ -778,6 +784,194 @@ func (o *shareRun) step(s *libSrv, q *request) (caseLine string, nf int) {
 	return "LIST", 0
 }
 
+// ---------------------------------------------------------------- the direct oracle
+
+// what an object shows of the modelled fields (no pointer names)
+func objView(f *ach.File) string {
+	var bs []string
+	for _, b := range shBats(f) {
+		if !b.ok() {
+			bs = append(bs, "nil-header")
+			continue
+		}
+		var ts []string
+		for _, e := range b.ents() {
+			ts = append(ts, strconv.Itoa(entTrace(e)))
+		}
+		bs = append(bs, fmt.Sprintf("%s:%d:%d:%d:%s:[%s]", b3(b.adv(), b.keep(), b.hdrOK()), b.odfi(), b.svc(), b.num(), b.ctl(), strings.Join(ts, ",")))
+	}
+	return fmt.Sprintf("id=%s o=%s c=%s [%s]", f.ID, optBits(f), fctlOf(f), strings.Join(bs, " "))
+}
+
+func cellsOf(f *ach.File) (bats, ents map[interface{}]bool) {
+	bats, ents = map[interface{}]bool{}, map[interface{}]bool{}
+	for _, b := range shBats(f) {
+		if !b.ok() {
+			continue
+		}
+		bats[b.key()] = true
+		for _, e := range b.ents() {
+			ents[e] = true
+		}
+		for _, e := range b.advEnts() {
+			ents[e] = true
+		}
+	}
+	return
+}
+
+func overlap(a, b map[interface{}]bool) bool {
+	for k := range a {
+		if b[k] {
+			return true
+		}
+	}
+	return false
+}
+
+type storePhoto struct {
+	bound map[string]*ach.File // symbolic id -> object
+	views map[*ach.File]string
+}
+
+func (o *shareRun) photo(s *libSrv, clients []string) storePhoto {
+	ph := storePhoto{bound: map[string]*ach.File{}, views: map[*ach.File]string{}}
+	for _, sym := range o.symIDs(s, clients) {
+		f, err := s.repo.FindFile(s.realID(sym))
+		if err != nil || f == nil {
+			continue
+		}
+		ph.bound[sym] = f
+		if _, ok := ph.views[f]; !ok {
+			ph.views[f] = objView(f)
+			known := false
+			for _, k := range o.keep {
+				if k == f {
+					known = true
+					break
+				}
+			}
+			if !known {
+				o.keep = append(o.keep, f)
+			}
+		}
+	}
+	return ph
+}
+
+// related: the objects connected to tgt through shared batch / entry pointers, over every object ever stored
+func (o *shareRun) related(tgt *ach.File) map[*ach.File]bool {
+	type cells struct{ b, e map[interface{}]bool }
+	cs := map[*ach.File]cells{}
+	for _, f := range o.keep {
+		b, e := cellsOf(f)
+		cs[f] = cells{b, e}
+	}
+	rel := map[*ach.File]bool{tgt: true}
+	for changed := true; changed; {
+		changed = false
+		for _, f := range o.keep {
+			if rel[f] {
+				continue
+			}
+			for g := range rel {
+				if overlap(cs[f].b, cs[g].b) || overlap(cs[f].e, cs[g].e) {
+					rel[f] = true
+					changed = true
+					break
+				}
+			}
+		}
+	}
+	return rel
+}
+
+func shareClass(kind string) string {
+	switch kind {
+	case "GET", "LIST", "VALIDATE", "GETBATCH", "LISTBATCHES", "CREATE", "SEGBODY":
+		return "pure"
+	case "DELETE", "ADDBATCH", "DELBATCH":
+		return "edit"
+	case "CONTENTS", "BUILD":
+		return "create"
+	}
+	return "derive"
+}
+
+func (o *shareRun) fail(key, what string, hist []string) {
+	o.fails = append(o.fails, failure{"fail", key, what, map[string]interface{}{"requests": append([]string{}, hist...), "mode": "share"}})
+}
+
+// judge: the statements of coq/Props/C17Share.v asked of the implementation, with the pointer
+// graph read off the real objects:
+//
+//	no request but DELETE of that very ID unbinds or rebinds an ID                     (C17_delete_derived_keeps_source)
+//	get/list/validate/batch lookups/create/segment-of-body change no stored object  (C17_pure_requests_change_nothing)
+//	delete / add batch / delete batch change no object but the one addressed         (C17_edit_stays_in_object)
+//	contents / build change only objects holding a batch of the one addressed       (C17_create_stays_in_batches)
+//	flatten / segment / balance change only objects connected to it by shared records (C17_derive_stays_in_family)
+//
+// A change the statements allow in an object other than the one addressed is the known finding
+// (the derive routes share records) and is reported under its key.
+func (o *shareRun) judge(q *request, before, after storePhoto, hist []string) {
+	o.evals++
+	tgt := before.bound[q.id]
+	for sym, f := range before.bound {
+		g, still := after.bound[sym]
+		if q.kind == "DELETE" && sym == q.id {
+			if still {
+				o.fail("share:delete:still-bound", fmt.Sprintf("DELETE %s: the ID is still bound", sym), hist)
+			}
+			continue
+		}
+		if !still {
+			o.fail("share:"+strings.ToLower(q.kind)+":unbound-another-id",
+				fmt.Sprintf("%s %s unbound ID %s", q.kind, q.id, sym), hist)
+		} else if g != f {
+			o.fail("share:"+strings.ToLower(q.kind)+":rebound-another-id",
+				fmt.Sprintf("%s %s bound ID %s to another object", q.kind, q.id, sym), hist)
+		}
+	}
+	cls := shareClass(q.kind)
+	var tb map[interface{}]bool
+	var rel map[*ach.File]bool
+	if tgt != nil {
+		tb, _ = cellsOf(tgt)
+		if cls == "derive" {
+			rel = o.related(tgt)
+		}
+	}
+	for f, v0 := range before.views {
+		v1, still := after.views[f]
+		if !still || v1 == v0 || f == tgt {
+			continue
+		}
+		allowed := false
+		switch cls {
+		case "create":
+			fb, _ := cellsOf(f)
+			allowed = tgt != nil && overlap(tb, fb)
+		case "derive":
+			allowed = rel[f]
+		}
+		if !allowed {
+			o.fail("share:"+strings.ToLower(q.kind)+":changed-unrelated-file",
+				fmt.Sprintf("%s %s changed what a stored file shows that shares nothing with it (class %s): %s -> %s", q.kind, q.id, cls, v0, v1), hist)
+			continue
+		}
+		o.cross[q.kind]++
+		if o.crossEx[q.kind] == "" {
+			o.crossEx[q.kind] = strings.Join(hist, " / ")
+		}
+		key := "server:flatten-alters-stored-file"
+		fb, _ := cellsOf(f)
+		if q.kind == "SEGMENT" || (tgt != nil && overlap(tb, fb)) {
+			key = "server:segment-alters-stored-file"
+		}
+		o.fail(key, fmt.Sprintf("%s %s changed what another stored file shows through the records the two share: %s -> %s", q.kind, q.id, v0, v1), hist)
+	}
+}
+
 // ---------------------------------------------------------------- histories
 
 // next: the generator of the oracle without its admissibility filter, biased towards
@@ -848,6 +1042,11 @@ func (o *shareRun) history(g *genState, lines []string, steps int, cases, impl *
 			}
 		}
 		rel := q.id != "" && o.sharesWithOther(s, clients, q.id)
+		var before storePhoto
+		if safe(func() { before = o.photo(s, clients) }) {
+			o.outside++
+			return
+		}
 		var line string
 		var nf int
 		if safe(func() { line, nf = o.step(s, q) }) {
@@ -864,6 +1063,7 @@ func (o *shareRun) history(g *genState, lines []string, steps int, cases, impl *
 			return
 		}
 		hist = append(hist, q.line())
+		safe(func() { o.judge(q, before, o.photo(s, clients), hist) })
 		cases.Printf("%s\n", line)
 		impl.Printf("nf=%d\t%s\n", nf, obs)
 		o.steps++
@@ -885,7 +1085,7 @@ func shareMode(args []string) {
 	fs.Parse(args)
 	p := loadPools()
 	tv, jv := classifyPools(p)
-	o := &shareRun{p: p, dist: map[string]int{}, onRel: map[string]int{}}
+	o := &shareRun{p: p, dist: map[string]int{}, onRel: map[string]int{}, cross: map[string]int{}, crossEx: map[string]string{}}
 	cases := hx.Create(filepath.Join(*out, "sharecases.txt"))
 	impl := hx.Create(filepath.Join(*out, "shareimpl.txt"))
 	for _, h := range corpusHistories(*corpus) {
@@ -904,6 +1104,50 @@ func shareMode(args []string) {
 		"get_body_differs_from_stored_object": o.httpDiff, "hung": o.hung, "max_entries_shared_between_stored_files": o.sharedMax,
 		"samples": o.samples,
 	}
+	summ["requests_that_changed_another_stored_file"] = o.cross
+	summ["first_history_per_kind"] = o.crossEx
 	bs, _ := json.MarshalIndent(summ, "", " ")
 	os.WriteFile(filepath.Join(*out, "share.json"), bs, 0o644)
+	w := hx.Create(filepath.Join(*out, "share.jsonl"))
+	seenKey := map[string]int{}
+	for _, f := range o.fails {
+		seenKey[f.Key]++
+		if seenKey[f.Key] > 20 {
+			continue
+		}
+		b, _ := json.Marshal(f)
+		w.Printf("%s\n", b)
+	}
+	nontr := 0
+	for _, n := range o.onRel {
+		nontr += n
+	}
+	sb, _ := json.Marshal(map[string]interface{}{"kind": "summary", "evaluations": o.evals, "distinct_nontrivial": len(o.onRel),
+		"rule": "request kinds that were sent to a stored file sharing batch or entry records with another stored file",
+		"distribution": o.dist, "samples": o.samples})
+	w.Printf("%s\n", sb)
+	w.Close()
+}
+
+// shareReplay re-runs one history with the direct oracle of the share mode
+func shareReplay(p *pools, reqs []string) {
+	o := &shareRun{p: p, dist: map[string]int{}, onRel: map[string]int{}, cross: map[string]int{}, crossEx: map[string]string{}}
+	d, _ := os.MkdirTemp("", "c17share")
+	defer os.RemoveAll(d)
+	cases := hx.Create(filepath.Join(d, "c"))
+	impl := hx.Create(filepath.Join(d, "i"))
+	o.history(nil, reqs, len(reqs), cases, impl)
+	cases.Close()
+	impl.Close()
+	for _, l := range reqs {
+		fmt.Println("  " + l)
+	}
+	if len(o.fails) == 0 {
+		fmt.Println("replay: no failure")
+		return
+	}
+	for _, f := range o.fails {
+		fmt.Printf("FAIL %s: %s\n", f.Key, f.What)
+	}
+	os.Exit(1)
 }
